@@ -33,6 +33,8 @@ def shards(tier):
     if tier == "thorough":
         for a in range(0, 32768, 512):
             out.append({"kind": "graph", "n": 6, "lo": a, "hi": a + 512, "dense": False})
+    for n in (3, 4):
+        out.append({"kind": "order", "n": n})
     for n in (1, 2):
         out.append({"kind": "s2g", "n": n, "lo": 0, "hi": {1: 6, 2: 60}[n]})
     for a in range(0, 1080, 30):
@@ -232,8 +234,68 @@ def check_s2g_result(acc, r, grp, case, site):
         acc.violation("s2g", site, "malformed-result", case, "tableau", repr(e)[:200])
 
 
+def check_order_consistency(acc, n, edges, order):
+    """a graph whose vertices were inserted in a non-sorted order: every converter must read it with one and the same vertex->qubit convention."""
+    import graphiq.backends.state_rep_conversion as rc
+    from graphiq.backends.stabilizer.functions.rep_conversion import get_stabilizer_tableau_from_graph, get_clifford_tableau_from_graph
+    from graphiq.state import QuantumState
+    g = nx.Graph()
+    g.add_nodes_from(order)
+    g.add_edges_from(edges)
+    pos = {v: i for i, v in enumerate(order)}
+    conv = {"insertion-order": G.norm((pos[a], pos[b]) for a, b in edges), "sorted-labels": G.norm(edges)}
+    case = {"n": n, "edges": [list(e) for e in edges], "insertion_order": list(order)}
+    readings = {}
+
+    def classify(name, state_edges_fn):
+        acc.evaluations += 1
+        acc.transitions += 1
+        try:
+            got = state_edges_fn()
+        except Exception as e:
+            acc.violation("order", name, "raises-" + type(e).__name__, case, "a state", repr(e)[:200])
+            return
+        hits = [k for k, e in conv.items() if got(e)]
+        if not hits:
+            acc.violation("order", name, "result-matches-no-vertex-order-convention", case, list(conv), "neither")
+        readings[name] = hits
+
+    def dm_matches(rho):
+        return lambda e: np.max(np.abs(np.asarray(rho) - sv.dm(sv.graph_state(n, sorted(e))))) < 1e-9
+
+    def grp_matches(tab):
+        return lambda e: gq.tableau_group(tab).same_state(P.graph_group(n, sorted(e)))
+    classify("graph_to_density", lambda: dm_matches(rc.graph_to_density(g.copy())))
+    classify("graph_to_stabilizer", lambda: grp_matches(rc.graph_to_stabilizer(g.copy())[0][1]))
+    classify("get_stabilizer_tableau_from_graph", lambda: grp_matches(get_stabilizer_tableau_from_graph(g.copy())))
+    classify("get_clifford_tableau_from_graph", lambda: grp_matches(get_clifford_tableau_from_graph(g.copy())))
+
+    def via_qs(rep):
+        q = QuantumState(g.copy(), rep_type="g")
+        q.convert_representation(rep)
+        return dm_matches(q.rep_data.data) if rep == "dm" else grp_matches(q.rep_data.data)
+    classify("QuantumState g->dm", lambda: via_qs("dm"))
+    classify("QuantumState g->s", lambda: via_qs("s"))
+    common = None
+    for name, hits in readings.items():
+        common = set(hits) if common is None else (common & set(hits))
+    if readings and not common:
+        acc.violation("order", "graph converters", "converters-disagree-on-vertex-order", case, "one convention for all", readings)
+    acc.validated += 1
+    acc.nontriv(("order", n, tuple(edges), tuple(order)))
+
+
 def run_shard(shard, tier, acc):
     import graphiq.backends.state_rep_conversion as rc
+    if shard["kind"] == "order":
+        n = shard["n"]
+        for edges in spaces.all_graphs(n):
+            if not edges:
+                continue
+            for order in (list(range(n))[::-1], list(range(1, n)) + [0], [n - 1] + list(range(n - 1))):
+                check_order_consistency(acc, n, list(edges), order)
+        acc.sample({"n": n, "edges": [list(e) for e in edges], "insertion_order": order})
+        return
     if shard["kind"] == "graph":
         n = shard["n"]
         pairs = list(itertools.combinations(range(n), 2))
